@@ -16,6 +16,7 @@ fn absdiff(a: u8, b: u8) -> u8 {
 // @ob props=C16 tier=thorough kind=P cfg=core-std timeout=3000
 // @fn Color3<Rgb>::to_hsl ; Color3<Hsl>::to_rgb
 // @clause converting any of the 2^24 8-bit RGB colours to HSL and back returns the original within 8/255 per channel, without panicking
+#[cfg(not(verif_skip_color_rgb_hsl_roundtrip_u8))]
 #[kani::proof]
 fn color_rgb_hsl_roundtrip_u8() {
     let c: [u8; 3] = kani::any();
@@ -27,6 +28,7 @@ fn color_rgb_hsl_roundtrip_u8() {
 // @ob props=C16 tier=quick kind=P cfg=core-std timeout=600
 // @fn Color3<Hsl>::to_rgb ; Color4<Hsla>::to_rgba
 // @clause every one of the 2^24 8-bit HSL triples converts to RGB without reaching unreachable!() or the channel-range debug assertion; the HSLA variant converts the colour identically and keeps alpha
+#[cfg(not(verif_skip_color_hsl_to_rgb_total_u8))]
 #[kani::proof]
 fn color_hsl_to_rgb_total_u8() {
     let c: [u8; 4] = kani::any();
@@ -39,6 +41,7 @@ fn color_hsl_to_rgb_total_u8() {
 // @ob props=C16 tier=quick kind=P cfg=core-std timeout=600
 // @fn Color3<Rgb>::to_hsl
 // @clause every 8-bit gray has zero saturation and keeps its lightness
+#[cfg(not(verif_skip_color_grays_u8))]
 #[kani::proof]
 fn color_grays_u8() {
     let v: u8 = kani::any();
@@ -50,6 +53,7 @@ fn color_grays_u8() {
 // @ob props=C16 tier=thorough kind=P cfg=core-std timeout=3000
 // @fn Color3<Rgb>::to_hsl ; Color4<Rgba>::to_hsla
 // @clause to_hsl never panics for any of the 2^24 8-bit colours; to_hsla converts identically and keeps alpha
+#[cfg(not(verif_skip_color_to_hsl_total_u8))]
 #[kani::proof]
 fn color_to_hsl_total_u8() {
     let c: [u8; 4] = kani::any();
@@ -62,6 +66,7 @@ fn color_to_hsl_total_u8() {
 // @ob props=C16 tier=quick kind=P cfg=core-std timeout=300
 // @fn Color3<Rgb>::to_rgb_u32 ; Color4<Rgba>::to_rgba_u32 ; Color4<Rgba>::to_argb_u32 ; Color3<Rgb>::to_rgba ; Color4<Rgba>::to_rgb ; Color3f<Rgb>::to_rgba ; Color4f<Rgba>::to_rgb ; Color4<Hsla>::to_hsl ; Color4f<Hsla>::to_hsl
 // @clause packing puts channels in the documented byte order (0x00RRGGBB, 0xRRGGBBAA, 0xAARRGGBB) for all 2^32 words; RGB<->RGBA (and HSLA->HSL) conversions keep the channels and set alpha to opaque / drop it, for u8 and f32 channels
+#[cfg(not(verif_skip_color_packing_and_alpha))]
 #[kani::proof]
 fn color_packing_and_alpha() {
     let c: [u8; 4] = kani::any();
@@ -89,6 +94,7 @@ fn color_packing_and_alpha() {
 // @ob props=C16 tier=quick kind=P cfg=core-std timeout=300
 // @fn Color3f<Rgb>::to_u8 ; Color3f<Rgb>::to_color3 ; Color3f<Rgb>::to_color4 ; Color4f<Rgba>::to_u8 ; Color4f<Rgba>::to_color3 ; Color4f<Rgba>::to_color4
 // @clause float-to-8-bit conversion clamps for every f32: c <= 0 -> 0, c >= 1 -> 255, NaN -> 0, and is monotone in between; to_color4 of an RGB colour sets alpha 0xFF; all four entry points agree channel-wise
+#[cfg(not(verif_skip_color_float_to_u8_clamps))]
 #[kani::proof]
 #[kani::unwind(6)]
 fn color_float_to_u8_clamps() {
@@ -111,6 +117,7 @@ fn color_float_to_u8_clamps() {
 // @ob props=C16 tier=quick kind=P cfg=core-std timeout=300
 // @fn <Color<[u8;N],Sp> as Affine>::add ; <Color<[u8;N],Sp> as Affine>::sub
 // @clause adding a difference to an 8-bit colour saturates at 0 and 255 instead of wrapping, for every colour and every per-channel difference in [-510, 510]; sub is the exact signed difference and add(sub) returns the minuend
+#[cfg(not(verif_skip_color_u8_add_saturates))]
 #[kani::proof]
 #[kani::unwind(6)]
 fn color_u8_add_saturates() {
